@@ -195,3 +195,196 @@ pub fn clashes(decls: &[Decl]) -> Vec<(Decl, Decl)> {
     }
     out
 }
+
+// ------------------------------------------------------------------------------------------------
+// Calls whose callee exists somewhere in the tree but is not visible from the call site
+// ------------------------------------------------------------------------------------------------
+
+fn collect_functions(defs: &[ast::RootDefinition], ns: &str, free: &mut Vec<String>, methods: &mut Vec<(String, String)>) {
+    for d in defs {
+        match d {
+            ast::RootDefinition::Function(f) => free.push(format!("{}{}", ns, f.name.node)),
+            ast::RootDefinition::Struct(s) => {
+                for m in &s.members {
+                    if let ast::StructEntry::Method(f) = m {
+                        methods.push((format!("{}{}", ns, s.name.node), f.name.node.clone()));
+                    }
+                }
+            }
+            ast::RootDefinition::Namespace(name, inner) => collect_functions(inner, &format!("{}{}::", ns, name.node), free, methods),
+            _ => {}
+        }
+    }
+}
+
+fn walk_expr_calls(e: &ast::Expression, f: &mut dyn FnMut(&ast::ScopedIdentifier)) {
+    use ast::Expression as E;
+    match e {
+        E::Literal(_) | E::Identifier(_) | E::SizeOf(_) => {}
+        E::UnaryOperation(_, a) | E::Cast(_, a) | E::Member(a, _) => walk_expr_calls(&a.node, f),
+        E::BinaryOperation(_, a, b) | E::ArraySubscript(a, b) => {
+            walk_expr_calls(&a.node, f);
+            walk_expr_calls(&b.node, f);
+        }
+        E::TernaryConditional(a, b, c) => {
+            walk_expr_calls(&a.node, f);
+            walk_expr_calls(&b.node, f);
+            walk_expr_calls(&c.node, f);
+        }
+        E::Call(callee, _, args) => {
+            match &callee.node {
+                E::Identifier(id) => f(id),
+                other => walk_expr_calls(other, f),
+            }
+            for a in args {
+                walk_expr_calls(&a.node, f);
+            }
+        }
+        E::BracedInit(_, inits) => inits.iter().for_each(|i| walk_init_calls(i, f)),
+        E::AmbiguousParseBranch(branches) => {
+            if let Some(b) = branches.first() {
+                walk_expr_calls(&b.expr.node, f);
+            }
+        }
+    }
+}
+
+fn walk_init_calls(i: &ast::Initializer, f: &mut dyn FnMut(&ast::ScopedIdentifier)) {
+    match i {
+        ast::Initializer::Expression(e) => walk_expr_calls(&e.node, f),
+        ast::Initializer::Aggregate(v) => v.iter().for_each(|x| walk_init_calls(x, f)),
+        ast::Initializer::StaticSampler(_) => {}
+    }
+}
+
+fn walk_stmt_calls(s: &ast::Statement, f: &mut dyn FnMut(&ast::ScopedIdentifier)) {
+    use ast::StatementKind as K;
+    let vardef = |d: &ast::VarDef, f: &mut dyn FnMut(&ast::ScopedIdentifier)| {
+        for def in &d.defs {
+            if let Some(i) = &def.init {
+                walk_init_calls(i, f);
+            }
+        }
+    };
+    match &s.kind {
+        K::Empty | K::Break | K::Continue | K::Discard => {}
+        K::Expression(e) => walk_expr_calls(e, f),
+        K::Var(d) => vardef(d, f),
+        K::AmbiguousDeclarationOrExpression(d, _) => vardef(d, f),
+        K::Block(v) => v.iter().for_each(|x| walk_stmt_calls(x, f)),
+        K::If(c, b) | K::While(c, b) | K::Switch(c, b) => {
+            walk_expr_calls(&c.node, f);
+            walk_stmt_calls(b, f);
+        }
+        K::DoWhile(b, c) => {
+            walk_stmt_calls(b, f);
+            walk_expr_calls(&c.node, f);
+        }
+        K::IfElse(c, a, b) => {
+            walk_expr_calls(&c.node, f);
+            walk_stmt_calls(a, f);
+            walk_stmt_calls(b, f);
+        }
+        K::For(init, c, inc, body) => {
+            match init {
+                ast::InitStatement::Empty => {}
+                ast::InitStatement::Expression(e) => walk_expr_calls(&e.node, f),
+                ast::InitStatement::Declaration(d) => vardef(d, f),
+            }
+            if let Some(c) = c {
+                walk_expr_calls(&c.node, f);
+            }
+            if let Some(i) = inc {
+                walk_expr_calls(&i.node, f);
+            }
+            walk_stmt_calls(body, f);
+        }
+        K::Return(e) => {
+            if let Some(e) = e {
+                walk_expr_calls(&e.node, f);
+            }
+        }
+        K::CaseLabel(e, next) => {
+            walk_expr_calls(&e.node, f);
+            walk_stmt_calls(next, f);
+        }
+        K::DefaultLabel(next) => walk_stmt_calls(next, f),
+    }
+}
+
+/// (callee as written, function that contains the call): calls to a free function that is declared somewhere in the tree under
+/// that leaf name, but which C++ / HLSL name lookup from the calling function's namespace does not find.
+pub fn invisible_calls(m: &ast::Module) -> Vec<(String, String)> {
+    let mut free = Vec::new();
+    let mut methods = Vec::new();
+    collect_functions(&m.root_definitions, "", &mut free, &mut methods);
+    let leafs: std::collections::HashSet<String> = free.iter().map(|q| q.rsplit("::").next().unwrap_or(q).to_string()).collect();
+    let mut out = Vec::new();
+    fn visit(defs: &[ast::RootDefinition], ns: &str, free: &[String], methods: &[(String, String)], leafs: &std::collections::HashSet<String>, out: &mut Vec<(String, String)>) {
+        for d in defs {
+            let mut check = |f: &ast::FunctionDefinition, owner: Option<String>| {
+                let Some(body) = &f.body else { return };
+                let caller = format!("{}{}", ns, f.name.node);
+                let mut on_call = |id: &ast::ScopedIdentifier| {
+                    let written: Vec<&str> = id.identifiers.iter().map(|i| i.node.as_str()).collect();
+                    let leaf = *written.last().unwrap_or(&"");
+                    if !leafs.contains(leaf) {
+                        return;
+                    }
+                    // a sibling method of the same struct
+                    if written.len() == 1 {
+                        if let Some(o) = &owner {
+                            if methods.iter().any(|(s, m)| s == o && m == leaf) {
+                                return;
+                            }
+                        }
+                    }
+                    // qualified through something the tree does not declare (metal::, vk:: ...): a library function
+                    if written.len() > 1 && !free.iter().any(|q| q.split("::").any(|c| c == written[0])) && !methods.iter().any(|(s, _)| s.split("::").any(|c| c == written[0])) {
+                        return;
+                    }
+                    let path = written.join("::");
+                    if id.base == ast::ScopedIdentifierBase::Absolute {
+                        if !free.iter().any(|q| *q == path) {
+                            out.push((format!("::{}", path), caller.clone()));
+                        }
+                        return;
+                    }
+                    let mut prefix = ns.to_string();
+                    loop {
+                        let candidate = format!("{}{}", prefix, path);
+                        if free.iter().any(|q| *q == candidate) {
+                            return;
+                        }
+                        if prefix.is_empty() {
+                            break;
+                        }
+                        let trimmed = prefix.trim_end_matches("::");
+                        prefix = match trimmed.rfind("::") {
+                            Some(i) => trimmed[..i + 2].to_string(),
+                            None => String::new(),
+                        };
+                    }
+                    out.push((path, caller.clone()));
+                };
+                for s in body {
+                    walk_stmt_calls(s, &mut on_call);
+                }
+            };
+            match d {
+                ast::RootDefinition::Function(f) => check(f, None),
+                ast::RootDefinition::Struct(s) => {
+                    for mem in &s.members {
+                        if let ast::StructEntry::Method(f) = mem {
+                            check(f, Some(format!("{}{}", ns, s.name.node)));
+                        }
+                    }
+                }
+                ast::RootDefinition::Namespace(name, inner) => visit(inner, &format!("{}{}::", ns, name.node), free, methods, leafs, out),
+                _ => {}
+            }
+        }
+    }
+    visit(&m.root_definitions, "", &free, &methods, &leafs, &mut out);
+    out
+}
